@@ -7,6 +7,8 @@ import (
 	"math/rand"
 	"path/filepath"
 	"strconv"
+	"strings"
+	"sync"
 	"time"
 
 	cstatsd "github.com/cactus/go-statsd-client/v5/statsd"
@@ -23,11 +25,16 @@ type statCall struct {
 }
 
 // recStatter is a recording statsd client.
-type recStatter struct{ calls []statCall }
+type recStatter struct {
+	mu    sync.Mutex
+	calls []statCall
+}
 
 func rateStr(r float32) string { return strconv.FormatFloat(float64(r), 'g', -1, 32) }
 
 func (s *recStatter) add(m, stat string, v int64, rate float32) error {
+	s.mu.Lock()
+	defer s.mu.Unlock()
 	s.calls = append(s.calls, statCall{M: m, raw: stat, V: fmt.Sprint(v), Rate: rateStr(rate)})
 	return nil
 }
@@ -197,7 +204,87 @@ func init() {
 				}
 			}
 		}
+		// one reporter used by several goroutines at the same time (two root scopes sharing it, overlapping passes):
+		// every call still goes to exactly the stat its own arguments name; sent and received multisets are compared
+		rounds := 4
+		if thorough {
+			rounds = 40
+		}
+		for round := 0; round < rounds; round++ {
+			st := &recStatter{}
+			rep := tstatsd.NewReporter(st, tstatsd.Options{})
+			const G, per = 6, 3000
+			want := map[string]int{}
+			var wmu sync.Mutex
+			var wg sync.WaitGroup
+			for g := 0; g < G; g++ {
+				g := g
+				wg.Add(1)
+				go func() {
+					defer wg.Done()
+					mine := map[string]int{}
+					vb := tally.ValueBuckets{1, 2.5, 1000}
+					db := tally.DurationBuckets{time.Second, 90 * time.Second, 2 * time.Hour}
+					for i := 0; i < per; i++ {
+						name := fmt.Sprintf("svc%d.h%d_%s", g, i%7, strings.Repeat("x", (g*5+i)%23))
+						if i%2 == 0 {
+							p := tally.BucketPairs(vb)[i%4]
+							rep.ReportHistogramValueSamples(name, nil, vb, p.LowerBoundValue(), p.UpperBoundValue(), 1)
+							mine[fmt.Sprintf("%s.%s-%s", name, c18Val(p.LowerBoundValue()), c18Val(p.UpperBoundValue()))]++
+						} else {
+							p := tally.BucketPairs(db)[i%4]
+							rep.ReportHistogramDurationSamples(name, nil, db, p.LowerBoundDuration(), p.UpperBoundDuration(), 1)
+							mine[fmt.Sprintf("%s.%s-%s", name, c18Dur(p.LowerBoundDuration()), c18Dur(p.UpperBoundDuration()))]++
+						}
+					}
+					wmu.Lock()
+					for k, v := range mine {
+						want[k] += v
+					}
+					wmu.Unlock()
+				}()
+			}
+			wg.Wait()
+			got := map[string]int{}
+			for _, c := range st.calls {
+				got[c.raw]++
+			}
+			missing, unexpected := 0, 0
+			for k, v := range want {
+				if got[k] < v {
+					missing += v - got[k]
+				}
+			}
+			for k, v := range got {
+				if want[k] < v {
+					unexpected += v - want[k]
+				}
+			}
+			tr.Emit(M{"e": "conc", "goroutines": G, "calls": G * per, "received": len(st.calls), "missing": missing, "unexpected": unexpected})
+			evals += G * per
+		}
 		tr.Close()
 		writeMeta(cm.out, M{"cases": cases, "events": tr.N, "evals": evals, "distinct": len(distinct), "samples": samples})
 	})
+}
+
+// the harness's own rendering of bucket bounds in stat names (default precision 6; Go duration syntax)
+func c18Val(v float64) string {
+	switch {
+	case v == math.MaxFloat64:
+		return "infinity"
+	case v == -math.MaxFloat64:
+		return "-infinity"
+	}
+	return strconv.FormatFloat(v, 'f', 6, 64)
+}
+
+func c18Dur(d time.Duration) string {
+	switch {
+	case d == time.Duration(math.MaxInt64):
+		return "infinity"
+	case d == time.Duration(math.MinInt64):
+		return "-infinity"
+	}
+	return d.String()
 }
